@@ -520,6 +520,133 @@ pub fn main(args: &[String]) -> i32 {
     0
 }
 
+thread_local!(static STORY_VICTIM_ALLOCATED: std::cell::Cell<bool> = const { std::cell::Cell::new(false) });
+
+/// C09/C02 story "failed batch next to an acknowledged one": a retired two-block extent [s, s+1] leaves
+/// the marker chain M(2), M(1) in the free space.  Two write-behind workers then allocate from it in one
+/// flush: the batch that owns block s fails at its journal-intent write (determinate failure, before any
+/// byte of the batch reaches the device), the other batch writes its record at s+1.  The failed key is
+/// deleted, the device works again, a flush succeeds (acknowledging the survivor), the store is closed
+/// and reopened.  The whole story is one sequential history judged by TraceStore.tla (the flush that met
+/// the injected failure is marked `faulted`; every other result and the contents after the reopen must be
+/// the reference map's).
+pub fn faultstory(args: &[String]) -> i32 {
+    use std::sync::atomic::{AtomicBool, Ordering};
+    let o = Opts::parse(args);
+    let dir = o.get("dir").unwrap_or("/dev/shm").to_string();
+    std::fs::create_dir_all(&dir).ok();
+    crate::obs::set_cpus(o.num("cpus", 4));
+    feoxdb::verif::force_sync(true);
+    crate::util::watchdog::start(o.num("watchdog", 60));
+    static ARMED: AtomicBool = AtomicBool::new(false);
+    let attempts: usize = o.num("attempts", 40);
+    let cfg = Cfg { pers: true, ttl: false, cache: o.num("cache", 0u32) == 1, fmt: 3, lim: -1, blocks: 64 };
+    let cfgj = |c: &Cfg| json!({"pers": c.pers, "ttl": c.ttl, "cache": c.cache, "fmt": c.fmt, "lim": c.lim});
+    let now = 1_000 * E9;
+    feoxdb::verif::set_now(now);
+    let out_path = o.req("out").to_string();
+    for attempt in 0..attempts {
+        let path = format!("{dir}/story_{}_{attempt}.feox", std::process::id());
+        let _ = std::fs::remove_file(&path);
+        // keys in byte order (TraceStore ranks them): survivor, victim, x
+        let keys: Vec<Vec<u8>> = vec![format!("a-survivor{attempt}").into_bytes(), format!("b-victim{attempt}").into_bytes(), b"x".to_vec()];
+        let (sk, vk, xk) = (1usize, 2usize, 3usize);
+        let store = build_store(&cfg, &path).expect("build store");
+        let mut vals = ValTable::new();
+        let mut evs: Vec<Value> = Vec::new();
+        evs.push(json!({"e": "reset", "cfg": cfgj(&cfg), "now": limbs(now), "overhead": FeoxStore::verif_record_overhead(),
+            "klen": keys.iter().map(|k| k.len()).collect::<Vec<_>>(), "post": post_state(&store, &keys)}));
+        let mut step = |store: &FeoxStore, vals: &mut ValTable, evs: &mut Vec<Value>, op: &str, k: usize, val: &[u8], faulted: bool| -> bool {
+            let mut ev = call_event(op, k);
+            let ok;
+            match op {
+                "insert" => {
+                    let r = store.insert(&keys[k - 1], val);
+                    ev["v"] = vals.val(val);
+                    ok = r.is_ok();
+                    ev["res"] = match &r { Ok(b) => res("bool", *b as i64, noval(), 0), Err(e) => res_err(e) };
+                }
+                "delete" => {
+                    let r = store.delete(&keys[k - 1]);
+                    ok = r.is_ok();
+                    ev["res"] = match &r { Ok(()) => res("unit", 0, noval(), 0), Err(e) => res_err(e) };
+                }
+                "get" => {
+                    let r = store.get(&keys[k - 1]);
+                    ok = r.is_ok();
+                    ev["res"] = match &r { Ok(v) => res("val", 0, vals.val(v), 0), Err(e) => res_err(e) };
+                }
+                _ => {
+                    let r = store.flush();
+                    ok = r.is_ok();
+                    ev["res"] = match &r { Ok(()) => res("unit", 0, noval(), 0), Err(e) => res_err(e) };
+                    ev["faulted"] = json!(faulted);
+                }
+            }
+            ev["now"] = json!(limbs(now));
+            ev["post"] = post_state(store, &keys);
+            evs.push(ev);
+            ok
+        };
+        let big = vec![b'X'; 5000];
+        step(&store, &mut vals, &mut evs, "insert", xk, &big, false);
+        step(&store, &mut vals, &mut evs, "flush", 1, b"", false);
+        let xs = store.verif_record(&keys[xk - 1]).map(|r| r.sector).unwrap_or(0);
+        step(&store, &mut vals, &mut evs, "delete", xk, b"", false);
+        step(&store, &mut vals, &mut evs, "flush", 1, b"", false);
+        // the failure: the journal write of the batch that has just allocated the victim
+        let vkey = keys[vk - 1].clone();
+        STORY_VICTIM_ALLOCATED.with(|c| c.set(false));
+        feoxdb::verif::install(Box::new(move |_seq, ev| {
+            if ev.kind == "alloc" && ev.key == vkey.as_slice() { STORY_VICTIM_ALLOCATED.with(|c| c.set(true)); }
+        }));
+        feoxdb::verif::set_fault_fn(Some(Box::new(|_idx, kind, sector, _len| {
+            if ARMED.load(Ordering::SeqCst) && kind == "write" && (1..7).contains(&sector) && STORY_VICTIM_ALLOCATED.with(|c| c.get()) {
+                STORY_VICTIM_ALLOCATED.with(|c| c.set(false));
+                // the failing call takes a while: the other worker allocates next to the victim meanwhile
+                std::thread::sleep(std::time::Duration::from_millis(40));
+                1
+            } else { 0 }
+        })));
+        ARMED.store(true, Ordering::SeqCst);
+        step(&store, &mut vals, &mut evs, "insert", vk, b"victim-value", false);
+        step(&store, &mut vals, &mut evs, "insert", sk, b"survivor-value", false);
+        let first_ok = step(&store, &mut vals, &mut evs, "flush", 1, b"", true);
+        ARMED.store(false, Ordering::SeqCst);
+        feoxdb::verif::set_fault_fn(None);
+        feoxdb::verif::uninstall();
+        let vs = store.verif_record(&keys[vk - 1]).map(|r| r.sector).unwrap_or(0);
+        let ss = store.verif_record(&keys[sk - 1]).map(|r| r.sector).unwrap_or(0);
+        if first_ok || vs != 0 || ss != xs + 1 {
+            if o.num("debug", 0u32) == 1 { eprintln!("attempt {attempt}: first_ok={first_ok} vs={vs} ss={ss} xs={xs}"); }
+            // both keys on one worker, or the survivor was placed first: not the layout of the story
+            std::mem::forget(store);
+            let _ = std::fs::remove_file(&path);
+            continue;
+        }
+        step(&store, &mut vals, &mut evs, "delete", vk, b"", false);
+        step(&store, &mut vals, &mut evs, "flush", 1, b"", false);
+        drop(store);   // clean close
+        match build_store(&cfg, &path) {
+            Ok(s) => {
+                evs.push(json!({"e": "reopen", "cfg": cfgj(&cfg), "now": limbs(now), "post": post_state(&s, &keys)}));
+                step(&s, &mut vals, &mut evs, "get", sk, b"", false);
+                step(&s, &mut vals, &mut evs, "get", vk, b"", false);
+                std::mem::forget(s);
+            }
+            Err(e) => evs.push(json!({"e": "reopen_fail", "err": crate::util::err_name(&e)})),
+        }
+        let mut out = std::io::BufWriter::new(std::fs::File::create(&out_path).expect("create out"));
+        for e in &evs { writeln!(out, "{}", e).unwrap(); }
+        out.flush().unwrap();
+        let _ = std::fs::remove_file(&path);
+        println!("{}", json!({"events": evs.len(), "attempt": attempt, "retired_extent": [xs, 2], "survivor_sector": ss}));
+        return 0;
+    }
+    println!("{}", json!({"events": 0, "inconclusive": true}));
+    3
+}
+
 /// C12 clock-saturation scenario: an accepted explicit timestamp next to u64::MAX on one key,
 /// followed by automatic writes to another key that shares its clock shard.
 pub fn clocksat(args: &[String]) -> i32 {
